@@ -11,61 +11,75 @@ def sh(cmd, cwd=None, timeout=1800):
     p = subprocess.run(cmd, shell=True, cwd=cwd, env=ENV, stdout=subprocess.PIPE, stderr=subprocess.STDOUT, text=True, timeout=timeout)
     return p.returncode, p.stdout
 meta = json.load(open(os.path.join(seed, "meta.json")))
+PHASE = os.environ.get("SEEDKEEP_PHASE", "both")
+VER = os.path.join(seed, "verified.json")
+if PHASE == "check" and os.path.exists(VER):
+    res = json.load(open(VER))
+    SKIPVERIFY = True
+else:
+    SKIPVERIFY = False
+if SKIPVERIFY:
+    pass
 subprocess.run(f"git -C /repo worktree remove --force {WT}", shell=True, stdout=subprocess.DEVNULL, stderr=subprocess.DEVNULL)
-rc, out = sh(f"git -C /repo worktree add --detach {WT} HEAD")
-res = {"worktree_head": sh("git -C /repo rev-parse --short HEAD")[1].strip()}
+if not SKIPVERIFY:
+    rc, out = sh(f"git -C /repo worktree add --detach {WT} HEAD")
+    res = {"worktree_head": sh("git -C /repo rev-parse --short HEAD")[1].strip()}
 try:
-    rc, out = sh(f"git apply --check {seed}/patch.diff", cwd=WT)
-    res["applies"] = rc == 0
-    if rc != 0:
-        print("patch does not apply:", out[:300]); raise SystemExit
-    # demo location / command from the meta text
-    demo = meta.get("demo", "") + " " + meta.get("demo_file", "") + " " + meta.get("demo_copy_to", "")
-    tests = sorted(glob.glob(os.path.join(seed, "*_test.go")))
-    dest = None
-    m = re.search(r"cp\s+\S+\s+(\S+)", demo)
-    if meta.get("demo_copy_to"):
-        mm = re.search(r"[\w./-]*\.go", meta["demo_copy_to"])
-        dest = mm.group(0) if mm else None
-    elif m:
-        dest = m.group(1)
-    if dest:
-        dest = re.sub(r"^(/tmp/wt-[A-Za-z0-9]+/|<worktree>/|\$WT/|\./)", "", dest)
-        if dest.endswith("/") or not dest.endswith(".go"):
-            dest = os.path.join(dest, os.path.basename(tests[0])) if tests else dest
-    m = re.search(r"-run\s+'?\"?([^'\" ]+)", demo)
-    pat = m.group(1) if m else "."
-    pkg = "./" + os.path.dirname(dest) if dest and os.path.dirname(dest) else "."
-    def run_demo():
-        newdir = not os.path.isdir(os.path.dirname(os.path.join(WT, dest)))
-        os.makedirs(os.path.dirname(os.path.join(WT, dest)), exist_ok=True)
-        shutil.copy(tests[0], os.path.join(WT, dest))
-        rc, out = sh(f"go test -vet=off -count=1 -run '{pat}' {pkg}", cwd=WT, timeout=1500)
-        os.remove(os.path.join(WT, dest))
-        if newdir:
-            shutil.rmtree(os.path.dirname(os.path.join(WT, dest)), ignore_errors=True)
-        return rc, out
-    runsh = os.path.join(seed, "demo", "run.sh")
-    if os.path.exists(runsh):
-        def run_demo():
-            return sh(f"sh {runsh} {WT}", cwd=os.path.join(seed, "demo"), timeout=1500)
-        tests, dest = [runsh], "demo/run.sh"
-    if tests and dest:
-        rc0, out0 = run_demo()
-        res["demo_passes_without_patch"] = rc0 == 0
-    sh(f"git apply {seed}/patch.diff", cwd=WT)
-    rc, out = sh("go build ./...", cwd=WT)
-    res["compiles"] = rc == 0
-    rc, out = sh(f"python3 /verif/tools/baseline.py {WT}", timeout=2400)
-    res["suite_green"] = rc == 0
-    res["suite_summary"] = out.strip().split("\n")[0]
-    if tests and dest:
-        rc1, out1 = run_demo()
-        res["demo_fails_with_patch"] = rc1 != 0
-        res["demo_cmd"] = f"sh demo/run.sh <worktree>" if os.path.exists(runsh) else f"cp {os.path.basename(tests[0])} {dest} && go test -vet=off -count=1 -run '{pat}' {pkg}"
+  if not SKIPVERIFY:
+      rc, out = sh(f"git apply --check {seed}/patch.diff", cwd=WT)
+      res["applies"] = rc == 0
+      if rc != 0:
+          print("patch does not apply:", out[:300]); raise SystemExit
+      # demo location / command from the meta text
+      demo = meta.get("demo", "") + " " + meta.get("demo_file", "") + " " + meta.get("demo_copy_to", "")
+      tests = sorted(glob.glob(os.path.join(seed, "*_test.go")))
+      dest = None
+      m = re.search(r"cp\s+\S+\s+(\S+)", demo)
+      if meta.get("demo_copy_to") or meta.get("demo_destination"):
+          mm = re.search(r"[\w./-]*\.go", meta.get("demo_copy_to") or meta.get("demo_destination"))
+          dest = mm.group(0) if mm else None
+      elif m:
+          dest = m.group(1)
+      if dest:
+          dest = re.sub(r"^(/tmp/wt-[A-Za-z0-9]+/|<worktree>/|<repo>/|\$WT/|\./)", "", dest)
+          if dest.endswith("/") or not dest.endswith(".go"):
+              dest = os.path.join(dest, os.path.basename(tests[0])) if tests else dest
+      m = re.search(r"-run\s+'?\"?([^'\" ]+)", demo)
+      pat = m.group(1) if m else "."
+      pkg = "./" + os.path.dirname(dest) if dest and os.path.dirname(dest) else "."
+      def run_demo():
+          newdir = not os.path.isdir(os.path.dirname(os.path.join(WT, dest)))
+          os.makedirs(os.path.dirname(os.path.join(WT, dest)), exist_ok=True)
+          shutil.copy(tests[0], os.path.join(WT, dest))
+          rc, out = sh(f"go test -vet=off -count=1 -run '{pat}' {pkg}", cwd=WT, timeout=1500)
+          os.remove(os.path.join(WT, dest))
+          if newdir:
+              shutil.rmtree(os.path.dirname(os.path.join(WT, dest)), ignore_errors=True)
+          return rc, out
+      runsh = os.path.join(seed, "demo", "run.sh")
+      if os.path.exists(runsh):
+          def run_demo():
+              return sh(f"sh {runsh} {WT}", cwd=os.path.join(seed, "demo"), timeout=1500)
+          tests, dest = [runsh], "demo/run.sh"
+      if tests and dest:
+          rc0, out0 = run_demo()
+          res["demo_passes_without_patch"] = rc0 == 0
+      sh(f"git apply {seed}/patch.diff", cwd=WT)
+      rc, out = sh("go build ./...", cwd=WT)
+      res["compiles"] = rc == 0
+      rc, out = sh(f"python3 /verif/tools/baseline.py {WT}", timeout=2400)
+      res["suite_green"] = rc == 0
+      res["suite_summary"] = out.strip().split("\n")[0]
+      if tests and dest:
+          rc1, out1 = run_demo()
+          res["demo_fails_with_patch"] = rc1 != 0
+          res["demo_cmd"] = f"sh demo/run.sh <worktree>" if os.path.exists(runsh) else f"cp {os.path.basename(tests[0])} {dest} && go test -vet=off -count=1 -run '{pat}' {pkg}"
 finally:
     subprocess.run(f"git -C /repo worktree remove --force {WT}", shell=True, stdout=subprocess.DEVNULL, stderr=subprocess.DEVNULL)
+json.dump(res, open(VER, "w"))
 print("verified:", res)
+if PHASE == "verify":
+    sys.exit(0)
 ok = all(res.get(k) for k in ("applies", "compiles", "suite_green", "demo_passes_without_patch", "demo_fails_with_patch"))
 # run my check
 rc, out = sh(f"/verif/tools/seedtest.sh {seed} {prop} {tier}", timeout=7200)
